@@ -114,7 +114,15 @@ def check_project(ctx, files, fmt, dist, origin):
             if "formatted" not in sm or sm["formatted"] is None or S(sm["formatted"]) != f["formatted"]:
                 chk.tie_break("correspondence:format_source", "format o (parse s) of the model differs from the real parse + format for %s" % name,
                               dict(replay, model=None if not sm.get("formatted") else S(sm["formatted"]), impl=f["formatted"]))
+            elif sm.get("shaped") is not True:
+                # the decidable hypothesis of C12_source_chars_partial (spec/FormatSource.v: parser_shaped) on this parse
+                chk.tie_break("hypothesis:parser_shaped", "the parse of %s does not have the shapes C12_source_chars_partial assumes" % name,
+                              dict(replay, shaped=sm.get("shaped")))
             dist["format_source_cases"] = dist.get("format_source_cases", 0) + 1
+            # oracle on the implementation for the same statement: blanks, line breaks and ASCII case aside, same characters
+            if fmtlib.plain_chars(f["formatted"]) != fmtlib.plain_chars(files[name]):
+                chk.oracle_failure(None, "formatting %s changed characters other than blanks, line breaks and letter case" % name,
+                                   dict(replay, formatted=f["formatted"]))
         else:
             ok = False
             chk.oracle_failure(None, "the formatter panics: %s" % f.get("panic", "")[:200], replay)
